@@ -485,6 +485,46 @@ func genStockMisc(g *vlib.G) {
 				}
 				t.Outcome("lauum-" + path)
 			})
+			for _, tl := range []struct {
+				name string
+				tol  float64
+			}{{"default", -1}, {"zero", 0}, {"tie", 0.25}} {
+				tl := tl
+				g.Case(fmt.Sprintf("stock Dpstrf exact-psd uplo=%s n=%d tol=%s", uploName(uplo), n, tl.name), func(t *vlib.T) {
+					// exactly rank-deficient PSD input at the stock block size 64: the zero pivot ties tol = 0
+					ck := &checker{t: t}
+					t.Nontrivial()
+					r := n - 2
+					a, pivots := genPSDClusters(n, r)
+					dstop := tl.tol
+					if dstop < 0 {
+						dstop = float64(n) * (eps / 2) * pivots[0]
+					}
+					want := 1
+					for _, p := range pivots[1:] {
+						if p > dstop {
+							want++
+						}
+					}
+					path := ""
+					for _, blocked := range []bool{false, true} {
+						run := runPstrf(ck, "Dpstrf", uplo, a, n+3, tl.tol, blocked)
+						ck.ctx = fmt.Sprintf("blocked=%v", blocked)
+						if run.rank != want || run.ok {
+							ck.failf("rank=%d ok=%v, want rank %d and ok=false", run.rank, run.ok, want)
+						}
+						for _, v := range run.fac.a {
+							if math.IsNaN(v) || math.IsInf(v, 0) {
+								ck.failf("NaN or Inf in the factor")
+								break
+							}
+						}
+						pstOracle(ck, "Dpstrf", uplo, a, run, tl.tol, "psd", want, true)
+						path = run.path
+					}
+					t.Outcome("pstrf-exact-" + path)
+				})
+			}
 			g.Case(fmt.Sprintf("stock Dpstrf uplo=%s n=%d", uploName(uplo), n), func(t *vlib.T) {
 				ck := &checker{t: t}
 				t.Nontrivial()
